@@ -6,7 +6,8 @@ use crate::downstream::{
 use crate::forwarder::Forwarder;
 use crate::pipe::DuplexPipe;
 use crate::{
-    authentication, core, datagram_pipe, downstream, forwarder, log_id, log_utils, pipe, udp_pipe,
+    authentication, core, datagram_pipe, downstream, forwarder, log_id, log_utils, pipe, shutdown,
+    udp_pipe,
 };
 use std::fmt::{Display, Formatter};
 use std::io;
@@ -100,7 +101,9 @@ impl Tunnel {
             biased;
             x = shutdown_notification.wait() => {
                 match x {
-                    Ok(_) => self.downstream.graceful_shutdown().await,
+                    Ok(_) => {
+                        shutdown::close_within_bound(self.downstream.graceful_shutdown()).await
+                    }
                     Err(e) => Err(io::Error::new(ErrorKind::Other, format!("{}", e))),
                 }
             }
